@@ -78,7 +78,7 @@ def eval_call(E, node, st):
             return E.eval_seq(list(node.args), st, kp)
         if f.id == "fresh" and E.spec_mode:
             # fresh(x): x was allocated after the entry state (of the call / of the function)
-            return E.bind(E.eval(node.args[0], st), lambda s, v: [Out("ok", s, vbool(v.t > E.frame.old.alloc))])
+            return E.bind(E.eval(node.args[0], st), lambda s, v: [Out("ok", s, vbool(v.t > E.frame.old.alloc) if v.kind.tag != "none" else vbool(False))])
         if f.id in ("all", "any") and len(node.args) == 1 and isinstance(node.args[0], ast.GeneratorExp):
             return _quant(E, node, st)
         if f.id == "implies" and E.spec_mode:
@@ -719,6 +719,8 @@ def havoc(E, st, locs, env, old_st):
                 _havoc_field_all(E, s, node.attr)
                 continue
             base = spec_value(E, node.value, st, env, old_st)
+            if base.kind.tag == "type":
+                base = E.class_object(base.t)  # Class.var : a class variable
             if base.kind.tag != "ref":
                 raise SpecError("modifies %s: base is %s" % (loc, base.kind))
             fk = E.R.field_kind(base.kind[1], node.attr, E.P)
